@@ -75,10 +75,11 @@ def long_lived_parser():
     return _PARSER[0]
 
 
-def build(spec):
-    """Library TimeRecurrence for the spec (constructor or parser)."""
+def build(spec, extra=None):
+    """Library TimeRecurrence for the spec (constructor or parser); extra =
+    further constructor keywords (min_point / max_point), constructor only."""
     D = M.lib()
-    if spec.get("via") == "parse":
+    if spec.get("via") == "parse" and not extra:
         return long_lived_parser().parse(render(spec))
     kw = {"repetitions": spec["reps"]}
     if spec["fmt"] == 1:
@@ -90,6 +91,7 @@ def build(spec):
     else:
         kw["end_point"] = M.make_point(spec["end"])
         kw["duration"] = M.make_duration(spec["dur"])
+    kw.update(extra or {})
     return D.TimeRecurrence(**kw)
 
 
